@@ -41,7 +41,8 @@ def prior_activity(kind):
         junk = [object() for _ in range(10000)] + [{"k": i} for i in range(3000)]
         from vlib.simharness import Harness
         h = Harness({"clock": "float", "rep": {"start": 0.0, "warmup": 0.0, "length": 5.0},
-                     "init": [["rel", 1.0, 5, "x1"], ["rel", 2.0, 5, "x2"]], "handlers": {"x1": [["rel", 1.5, 5, "x3"]]}}, "unrelated")
+                     "init": [["rel", 1.0, 5, "x1"], ["ev", 2.0, 5, "x2"], ["ev", 2.0, 5, "x4"]],
+                     "handlers": {"x1": [["rel", 1.5, 5, "x3"], ["ev", 3.0, 5, "x5"]]}}, "unrelated")
         h.cmd("initialize")
         h.cmd("start")
         h.wait_quiescent(20)
